@@ -498,6 +498,7 @@ func strRelGo(op int, a, b string) bool {
 }
 
 func checkC04(c *Ctx) {
+	allowEscapedScalars = false // "literals containing backslash escapes are outside this claim"
 	c.Res.Rule = "single comparisons with a quoted literal without backslash (empty, blanks, mixed case, non-ASCII incl. characters whose lower-casing changes the byte length, control characters) under the nine string operators in every spelling; attribute = the literal / a case variant / a prefix, suffix or infix extension / invalid UTF-8 / a fmt.Stringer / a non-string; expected verdict computed with strings.ToLower and Go's own string relations; non-trivial = distinct (literal, operator, attribute) with a string-like attribute"
 	n := c.budget(25000, 900000)
 	var batch []*leafCase
